@@ -10,6 +10,10 @@ rather than guess.  The prelude items the rules refer to are in vx/prelude/model
   R7   `&DashMap` / `&DashSet` / `&AtomicUsize` params -> `&mut SeqMap` / `SeqSet` / `Counter` (A-SEQ),
        `if let Entry::Vacant(E) = M.entry(K) { .. E.insert(V) .. } else { .. }` -> contains_key / insert
   R11  `let X = V.drain(..).flat_map(|A| E); .. for P in X { body }` -> `drain_all` + explicit `loop`
+  R11E `for A in V.drain(..) { body }`                  -> `drain_all` + explicit `loop`
+  R3V  `for X in &V { body }`                          -> index `while` loop with `let X = &V[j_];`
+  R6S  `P: Option<fn(&T) -> T>` param                  -> `P: &Option<ReprFn<T>>`, calls of its bindings -> `call_repr(F, ..)`
+  R11D `let X = P.drain(..E).collect::<Vec<_>>();`     -> `let n_ = E; let X = drain_front(P, n_);`
   R12  `&Option<Box<dyn CheckerVisitor<M> ..>>` param  -> `&Option<VisitorBox<M>>` + `vlog_: &mut VisitLog<M>`
   GH   the function gets one extra, erased parameter `gh_: &mut Gh<M>` (the unit's ghost state) and hands it
        on (`&*gh_`) to the GH_CALLEES functions;  GHR: the same, read-only (`gh_: &Gh<M>`)
@@ -218,6 +222,116 @@ def R11(body, ctx):
                 '                let %s = match %s { None => { continue; } Some(x_) => x_ };' % (a, x, p, expr))
         body = (body[:m.start()] + 'let mut %s = drain_all(&mut %s);' % (x, v) + body[stmt_end:fm.start()]
                 + head + body[fm.end():])
+        mask = code_mask(body)
+        n += 1
+    return body, n
+
+
+def R11E(body, ctx):
+    """`for A in V.drain(..) { B }`  ->  `let mut it_ = drain_all(&mut V); loop { let A = match it_.next() {
+    None => { break; } Some(a_) => a_ }; B }`   (the R11 idiom without the flat_map stage)"""
+    mask = code_mask(body)
+    rx = re.compile(r'(?<![A-Za-z0-9_.])for\s+(%s)\s+in\s+(%s)\.drain\(\s*\.\.\s*\)\s*\{' % (IDENT, IDENT))
+    n = 0
+    while True:
+        m = _first_code_match(rx, body, mask)
+        if not m:
+            break
+        a, v = m.group(1), m.group(2)
+        name = 'it_' if n == 0 else 'it%d_' % n
+        body = (body[:m.start()] + 'let mut %s = drain_all(&mut %s);\n            loop {\n                let %s = match %s.next() { None => { break; } Some(a_) => a_ };'
+                % (name, v, a, name) + body[m.end():])
+        mask = code_mask(body)
+        n += 1
+    return body, n
+
+
+def R3V(body, ctx):
+    """`for X in &V { B }` (V an identifier the body does not modify)
+    -> `let mut j_ = 0; while j_ < V.len() { let X = &V[j_]; j_ += 1; B }`"""
+    mask = code_mask(body)
+    rx = re.compile(r'(?<![A-Za-z0-9_.])for\s+(%s)\s+in\s+&(%s)\s*\{' % (IDENT, IDENT))
+    n = 0
+    while True:
+        m = _first_code_match(rx, body, mask)
+        if not m:
+            break
+        x, v = m.group(1), m.group(2)
+        ob = m.end() - 1
+        cb = match_close(body, ob, mask)
+        inner = body[ob + 1:cb]
+        if re.search(r'(?<![A-Za-z0-9_.])' + re.escape(v) + r'\s*(=(?!=)|\.(push|pop|clear|insert|remove|truncate)\()', inner):
+            raise LostAnchor('R3V: `%s` is modified inside the loop' % v)
+        j = 'j_' if n == 0 else 'j%d_' % n
+        body = (body[:m.start()] + 'let mut %s = 0;\n                while %s < %s.len() {\n                    let %s = &%s[%s];\n                    %s += 1;'
+                % (j, j, v, x, v, j, j) + inner + body[cb:])
+        mask = code_mask(body)
+        n += 1
+    return body, n
+
+
+def R6S(body, ctx):
+    """A parameter of fn-pointer option type `P: Option<fn(&T) -> T>` becomes `P: &Option<ReprFn<T>>` (the opaque
+    prelude type; by reference because the opaque type is not `Copy` - a fn pointer is, so nothing changes for
+    the caller); for every binding `Some(F) = P` each call `F(args)` becomes `call_repr(F, args)`."""
+    params = _split_top_commas(ctx['params'])
+    new_params, names = [], []
+    for p in params:
+        m = re.match(r'\s*(%s)\s*:\s*Option<\s*fn\(\s*&\s*([^)]+?)\s*\)\s*->\s*(.+?)\s*>\s*$' % IDENT, p)
+        if m and m.group(2).strip() == m.group(3).strip():
+            new_params.append('%s: &Option<ReprFn<%s>>' % (m.group(1), m.group(2).strip()))
+            names.append(m.group(1))
+        else:
+            new_params.append(p.strip())
+    if not names:
+        return body, 0
+    ctx['params'] = ', '.join(new_params)
+    n = len(names)
+    mask = code_mask(body)
+    for pn in names:
+        binds = []
+        for m in re.finditer(r'Some\(\s*(%s)\s*\)\s*=\s*%s(?![A-Za-z0-9_])' % (IDENT, re.escape(pn)), body):
+            if mask[m.start()] and m.group(1) not in binds:
+                binds.append(m.group(1))
+        for f in binds:
+            rx = re.compile(r'(?<![A-Za-z0-9_.:])' + re.escape(f) + r'\s*\(')
+            out, pos = [], 0
+            for m in rx.finditer(body):
+                if not mask[m.start()]:
+                    continue
+                out.append(body[pos:m.start()])
+                out.append('call_repr(%s, ' % f)
+                pos = m.end()
+                n += 1
+            out.append(body[pos:])
+            body = ''.join(out)
+            mask = code_mask(body)
+    return body, n
+
+
+def R11D(body, ctx):
+    """`let [mut] X = P.drain(..E).collect::<Vec<_>>();`  ->  `let n_ = E; let [mut] X = drain_front(P, n_);`
+    (prelude: removes the first n_ elements of the VecDeque P and returns them in order; std panics if
+    n_ > len, which becomes the precondition).  E is hoisted because the method call's two-phase borrow of P
+    is not available to a plain function call; it is still evaluated before the drain."""
+    mask = code_mask(body)
+    rx = re.compile(r'let\s+(mut\s+)?(%s)\s*=\s*(%s)\s*\.\s*drain\s*\(\s*\.\.(?!=)' % (IDENT, IDENT))
+    n = 0
+    while True:
+        m = _first_code_match(rx, body, mask)
+        if not m:
+            break
+        mut, x, p = m.group(1) or '', m.group(2), m.group(3)
+        po = body.index('(', body.index('drain', m.start()))
+        pc = match_close(body, po, mask)
+        expr = body[m.end():pc].strip()
+        tail = re.match(r'\s*\.\s*collect::<\s*Vec<\s*_\s*>\s*>\(\s*\)\s*;', body[pc + 1:])
+        if not tail or not expr:
+            raise LostAnchor('R11D: `%s.drain(..E)` is not followed by `.collect::<Vec<_>>();`' % p)
+        is_ref_param = re.search(r'(?<![A-Za-z0-9_])' + re.escape(p) + r'\s*:\s*&\s*mut\b', ctx['params']) is not None
+        recv = p if is_ref_param else '&mut ' + p
+        body = (body[:m.start()] + 'let n_ = %s;\n        let %s%s = drain_front(%s, n_);' % (expr, mut, x, recv)
+                + body[pc + 1 + tail.end():])
         mask = code_mask(body)
         n += 1
     return body, n
